@@ -1041,7 +1041,7 @@ where
         Self: Sized,
     {
         let inner_has_subscriber_filter = filter::subscriber_has_psf(&self);
-        Layered::new(subscriber, self, inner_has_subscriber_filter)
+        Layered::new(subscriber, self, inner_has_subscriber_filter, false)
     }
 
     /// Composes this subscriber with the given collector, returning a
@@ -1095,7 +1095,7 @@ where
     {
         let inner_has_subscriber_filter = filter::collector_has_psf(&inner);
         self.on_subscribe(&mut inner);
-        Layered::new(self, inner, inner_has_subscriber_filter)
+        Layered::new(self, inner, inner_has_subscriber_filter, true)
     }
 
     /// Combines `self` with a [`Filter`], returning a [`Filtered`] subscriber.
